@@ -42,7 +42,8 @@ def _err(a, b):
 
 def _const_case():
     return st.fixed_dictionaries({'q0': gen.unit_quaternions(allow_denormal=False), 'rate': _rate(), 'dt': _dt(),
-                                  'n': st.one_of(st.integers(1, 400), st.integers(1, 30)), 'q0scale': gen.log_uniform(-2, 2)})
+                                  'n': st.one_of(st.integers(1, 400), st.integers(1, 30)), 'q0scale': gen.log_uniform(-2, 2),
+                                  'dts': st.lists(st.one_of(_dt(), st.sampled_from([0.01, 0.02, 0.005])), min_size=2, max_size=6)})
 
 
 def eval_constant(case, ctx):
@@ -77,6 +78,25 @@ def eval_constant(case, ctx):
             r1 = oracle.qmul(q0, oracle.qexp_pure(0.5*dt*w))
             if min(_err(q1, r1), _err(q1, -r1)) > 1e-12:
                 ctx.fail('update[dt=]|ignored', f'err {_err(q1, r1):.3e}')
+        # one instance, the same rate, uneven steps (a sensor with jitter): elapsed time is what counts, whatever the order
+        dts = [float(d) for d in case.get('dts', [])]
+        if dts:
+            ctx.label('uneven_steps')
+            r2 = oracle.qmul(q0, oracle.qexp_pure(0.5*sum(dts)*w))
+            for via in ('dt=', 'Dt attribute'):
+                def run2():
+                    G_ = AngularRate(Dt=dts[0])
+                    qq = np.array(q0)
+                    for d in dts:
+                        if via == 'dt=':
+                            qq = G_.update(qq, np.array(w), method='closed', dt=d)
+                        else:
+                            G_.Dt = d
+                            qq = G_.update(qq, np.array(w), method='closed')
+                    return np.asarray(qq, dtype=float)
+                ok, q2 = ctx.call(f'update[uneven {via}]', run2)
+                if ok and min(_err(q2, r2), _err(q2, -r2)) > 1e-12:
+                    ctx.fail(f'update[uneven {via}]|not_elapsed_time', f'err {min(_err(q2, r2), _err(q2, -r2)):.3e} steps {dts}')
     # batch constructor: first gyro row is by design unused
     G = np.tile(w, (n+1, 1))
     G[0] = [9.0, -9.0, 9.0]
